@@ -558,6 +558,13 @@ fn eval_oracle(ctx: &Ctx, o: &mut Outcome, it: &Item, orc: &Oracle, v: &Value) {
             let h = t[5].as_str().unwrap_or("");
             let want_h = if name == "Raw" { er.raw_hash.to_string() } else { er.rows_hash.to_string() };
             let must = orc.must.iter().any(|m| *m == name);
+            // derived targets whose attributes relax the type check render their own view of a UDT (an absent or
+            // empty value becomes all-missing fields): compared only where the case names them, otherwise they are
+            // run for "a value or an error, never a crash"
+            if (name.contains("UdtLoose") || name.contains("UdtOrdered")) && !must {
+                o.class("observed:loose-derived-target-decoded(not asserted)");
+                continue;
+            }
             if err && !must {
                 // e.g. a non-Option target meeting a null: refusing the row is legitimate
                 o.class("observed:typed-target-refused-a-wellformed-row(not asserted)");
@@ -1176,6 +1183,8 @@ fn declare(o: &mut Outcome, full: bool) {
             "target-decoded:(Option<Vec<i32>>,)",
             "target-decoded:(map,set,tuple)",
             "target-decoded:(Option<UdtAB>,)",
+            "target-decoded:(Option<UdtLoose>,)",
+            "target-decoded:(Option<UdtOrdered>,)",
         ] {
             o.require_class(c);
         }
